@@ -208,3 +208,55 @@ def spec_c04(tier, seed):
                    'rsocket.transports.tcp.TransportTCP.next_frame_generator'],
         stubs=['S1', 'S2', 'S3', 'recording parse_or_ignore stand-in (L1 and message lemma only)', 'real asyncio.StreamReader on VLoop'],
     )
+
+
+def spec_c18(tier, seed):
+    q = tier == 'quick'
+    be = ('native', 'model')
+    kinds = list(range(8))
+    combos = [[a] for a in kinds] + [[a, b] for a in kinds for b in kinds]
+    if not q:
+        combos += [[a, b, c] for a in kinds for b in kinds for c in kinds]
+    cparts = [{'kinds': k, 'clen': 2, 'namelen': 3} for k in combos]
+    cparts += [{'kinds': [1, 6], 'clen': c, 'namelen': n} for c, n in ((0, 1), (1, 128), (5, 127))]
+    nlens = [1, 2, 16, 31, 32, 127, 128, 129, 200] if q else [1, 2, 3, 9, 10, 15, 16, 24, 31, 32, 33, 38, 64, 127, 128, 129, 130, 200, 256]
+    tl = [[1, 0, 2], [255, 1, 0], [0, 0, 0]] + ([] if q else [[3, 255, 255], [2, 2, 2], [254, 0, 1]])
+    al = [[0, 0], [2, 3], [1, 0], [0, 4]] + ([] if q else [[300, 2], [5, 5], [255, 256]])
+    return dict(
+        conds=[
+            STUBVAL,
+            Cond('c18_metadata', 'c_custom_mime_header', parts=[{'nlen': n} for n in nlens], backends=be, timeout=200),
+            Cond('c18_metadata', 'c_mime_length_boundary', timeout=300),
+            Cond('c18_metadata', 'c_well_known_header', backends=be, timeout=200),
+            Cond('c18_metadata', 'c_tables_bijective', timeout=200),
+            Cond('c18_metadata', 'c_tags', parts=[{'tlens': t, 'via_helper': h} for t in tl for h in (True, False)], timeout=200),
+            Cond('c18_metadata', 'c_tag_length_boundary', timeout=200),
+            Cond('c18_metadata', 'c_auth', parts=[{'alens': a} for a in al], backends=be, timeout=200),
+            Cond('c18_metadata', 'c_composite', parts=cparts, backends=be, timeout=200),
+            Cond('c18_metadata', 'c_entry_length_field', backends=be, timeout=600),
+        ],
+        explanation='real CompositeMetadata.parse/serialize, item classes, tagging/routing, authentication, stream data '
+                    'MIME type(s), serialize_well_known_encoding / parse_well_known_encoding / serialize_128max_value / '
+                    'parse_type and the helper constructors, executed symbolically: contents of names, tags, credentials, '
+                    'tokens and entry bodies are solver variables (lengths fixed per process, boundaries 1/128/129 and '
+                    '255/256 reached through symbolic-LENGTH conditions), well-known ids symbolic over the whole id byte; '
+                    'value->bytes->value, bytes->value->bytes, reference byte layout, table bijection, rejection of '
+                    'over-long names/tags; both back ends',
+        bounds=['lists of 1..%d entries over 8 entry kinds (all ordered combinations)' % (2 if q else 3),
+                'custom MIME names of %s bytes with symbolic content; symbolic length 1..300 for the limit' % nlens,
+                'tags: up to 3 per list with lengths from %s; symbolic length 250..260 for the limit' % tl,
+                'credentials/tokens lengths %s; entry body symbolic length 0..300 and 65530..65540' % al],
+        outside=['entries >= 2^24 bytes, user names >= 2^16 bytes, the empty custom MIME name, the two ..._DO_NOT_USE pseudo MIME names'],
+        functions=['rsocket.extensions.composite_metadata.CompositeMetadata.parse', 'rsocket.extensions.composite_metadata.CompositeMetadata.serialize',
+                   'rsocket.extensions.composite_metadata_item.CompositeMetadataItem.serialize', 'rsocket.extensions.tagging.TaggingMetadata._serialize_tags',
+                   'rsocket.extensions.tagging.TaggingMetadata.parse', 'rsocket.extensions.authentication.AuthenticationSimple.serialize',
+                   'rsocket.extensions.authentication.AuthenticationSimple.parse', 'rsocket.extensions.authentication_content.AuthenticationContent.serialize',
+                   'rsocket.extensions.authentication_content.AuthenticationContent.parse', 'rsocket.extensions.stream_data_mimetype.StreamDataMimetype.parse',
+                   'rsocket.extensions.stream_data_mimetype.StreamDataMimetypes.parse', 'rsocket.helpers.serialize_well_known_encoding',
+                   'rsocket.helpers.parse_well_known_encoding', 'rsocket.frame_helpers.serialize_128max_value',
+                   'rsocket.extensions.mimetypes.WellKnownMimeTypes.require_by_id', 'rsocket.extensions.mimetypes.WellKnownMimeTypes.get_by_name',
+                   'rsocket.extensions.authentication_types.WellKnownAuthenticationTypes.require_by_id',
+                   'rsocket.extensions.helpers.composite', 'rsocket.extensions.helpers.route', 'rsocket.extensions.helpers.metadata_item'],
+        stubs=['S1', 'S2', 'S3', 'S5 (validated)'],
+        technique_extra='; stub translation validation by differential execution',
+    )
